@@ -113,6 +113,10 @@ impl VariableByteInteger {
             if (b & 0x80) == 0 {
                 // complete
                 return match Self::from_u32(value) {
+                    // The encoded value MUST use the minimum number of bytes [MQTT-1.5.5-1]
+                    Some(vbi) if vbi.size() != i + 1 => {
+                        DecodeResult::Err("VariableByteInteger is not minimally encoded")
+                    }
                     Some(vbi) => DecodeResult::Ok(vbi, i + 1),
                     None => DecodeResult::Err("Encoding failure"),
                 };
